@@ -1200,3 +1200,222 @@ func init() {
 		},
 	})
 }
+
+// ---------------------------------------------------------------- numbers from every source are numbers
+//
+// floor / ceil / round work on EVERY number, wherever the program got it from:
+// a for-in position (arrays: index; strings: byte offset), $index, a length()
+// result, arithmetic, num(), the document, a literal, ++ / -- / op= results, an
+// element or member, a popped value, a match binding, a parameter, a function
+// result, another rounding result. Each number is used directly and after being
+// copied (j = E), put into a container, passed on, bound by a match, pushed.
+
+type c16Src struct {
+	name string
+	tmpl string // the program; @U@ stands where the number is used (executed once per entry of vals), @E@ is the number
+	e    string
+	vals []float64
+	pure bool // evaluating @E@ twice gives the same number and has no effect
+	doc  string
+}
+
+func c16NumberSources() []c16Src {
+	var out []c16Src
+	add := func(name, tmpl, e string, pure bool, doc string, vals ...float64) {
+		if doc == "" {
+			doc = "{}"
+		}
+		out = append(out, c16Src{name, tmpl, e, vals, pure, doc})
+	}
+	rule := func(pre string) string { return "{\n" + pre + "@U@}\n" }
+	loop := func(head string) string { return "{\n  " + head + " {\n@U@  }\n}\n" }
+	// for-in position variables
+	add("for-in index (array)", loop("for (v, i in [10.5, 20.5, 30.5])"), "i", true, "", 0, 1, 2)
+	add("for-in index (array of containers)", loop("for (v, i in [[], {}, 'x', null])"), "i", true, "", 0, 1, 2, 3)
+	add("for-in index (document array)", loop("for (v, i in $.l)"), "i", true, `{"l": [5, 6]}`, 0, 1)
+	add("for-in index (array variable)", "{\n  arr = ['a', 'b', 'c']\n  for (e, pos in arr) {\n@U@  }\n}\n", "pos", true, "", 0, 1, 2)
+	add("for-in byte offset (string)", loop("for (c, p in 'abc')"), "p", true, "", 0, 1, 2)
+	add("for-in byte offset (multi-byte string)", loop("for (c, p in 'aé日b')"), "p", true, "", 0, 1, 3, 6)
+	add("for-in byte offset (document string)", loop("for (c, p in $.s)"), "p", true, `{"s": "xé!"}`, 0, 1, 3)
+	add("for-in index, inner of two loops", "{\n  for (a, i in [1, 2]) {\n    for (b, j in 'xy') {\n@U@    }\n  }\n}\n", "j", true, "", 0, 1, 0, 1)
+	add("for-in index, outer of two loops", "{\n  for (a, i in [1, 2]) {\n    for (b, j in 'xy') {\n@U@    }\n  }\n}\n", "i", true, "", 0, 0, 1, 1)
+	add("for-in index inside a function", "function walk(l) {\n  for (v, i in l) {\n@U@  }\n}\n{\n  walk([7, 8, 9])\n}\n", "i", true, "", 0, 1, 2)
+	add("for-in index after the loop (array)", rule("  for (v, i in [7, 8, 9]) { n = v }\n"), "i", true, "", 2)
+	add("for-in offset after the loop (string)", rule("  for (c, p in 'aé') { n = c }\n"), "p", true, "", 1)
+	add("for-in index after a break", rule("  for (v, i in [7, 8, 9]) { if (i == 1) break }\n"), "i", true, "", 1)
+	add("for-in index in BEGIN", "BEGIN {\n  for (v, i in [1, 2]) {\n@U@  }\n}\n", "i", true, "", 0, 1)
+	add("for-in index plus a half", loop("for (v, i in [1, 2, 3])"), "(i + 0.5)", true, "", 0.5, 1.5, 2.5)
+	add("for-in index halved", loop("for (v, i in [1, 2, 3, 4])"), "(i / 2)", true, "", 0, 0.5, 1, 1.5)
+	add("negated for-in offset", loop("for (c, p in 'abc')"), "(-p - 0.5)", true, "", -0.5, -1.5, -2.5)
+	add("for-in element", loop("for (v in [2.5, -2.5, 7])"), "v", true, "", 2.5, -2.5, 7)
+	add("for-in element with index", loop("for (v, i in [2.5, -3.5])"), "v", true, "", 2.5, -3.5)
+	add("for-in object value", loop("for (k, v in {a: 2.5, b: -3.5})"), "v", true, "", 2.5, -3.5)
+	add("for-in document element", loop("for (v in $.l)"), "v", true, `{"l": [0.5, 1.5, -0.5]}`, 0.5, 1.5, -0.5)
+	// the record counter
+	add("$index", rule(""), "$index", true, `[10, 20, 30]`, 0, 1, 2)
+	add("$index halved", rule(""), "($index / 2)", true, `[10, 20, 30]`, 0, 0.5, 1)
+	add("$index in a pattern rule", "$ > 15 {\n@U@}\n", "$index", true, `[10, 20, 30]`, 1, 2)
+	add("$index in END", "END {\n@U@}\n", "$index", true, `[10, 20, 30]`, 2)
+	// length() results
+	add("string length", rule(""), "'abc'.length()", true, "", 3)
+	add("multi-byte string length", rule("  s = 'aé日'\n"), "s.length()", true, "", 6)
+	add("array length", rule("  l = [1, 2]\n"), "l.length()", true, "", 2)
+	add("object length", rule(""), "$.length()", true, `{"a": 1, "b": 2, "c": 3}`, 3)
+	add("length after push", rule("  l = [1]\n"), "l.push(5).length()", false, "", 2)
+	add("half a length", rule("  l = [1, 2, 3]\n"), "(l.length() / 2)", true, "", 1.5)
+	// arithmetic
+	add("quotient", rule(""), "(5 / 2)", true, "", 2.5)
+	add("negative quotient", rule(""), "(-7 / 2)", true, "", -3.5)
+	add("sum of variables", rule("  x = 2\n  y = 0.5\n"), "(x + y)", true, "", 2.5)
+	add("unary minus", rule("  x = 2.5\n"), "(-x)", true, "", -2.5)
+	add("unary plus of a string", rule("  s = '2.5'\n"), "(+s)", true, "", 2.5)
+	add("string times number", rule(""), "('1.5' * 3)", true, "", 4.5)
+	add("remainder", rule(""), "(7 % 4)", true, "", 3)
+	add("difference", rule(""), "(10 - 12.5)", true, "", -2.5)
+	// num()
+	add("num of a string", rule(""), "num('2.5')", true, "", 2.5)
+	add("num of a negative string", rule(""), "num('-3.5')", true, "", -3.5)
+	add("num of a number", rule(""), "num(7.9)", true, "", 7)
+	add("num of a document string", rule(""), "num($.s)", true, `{"s": "1e1"}`, 10)
+	// the document
+	add("document member", rule(""), "$.x", true, `{"x": 2.5}`, 2.5)
+	add("document element", rule(""), "$.l[1]", true, `{"l": [1, -2.5]}`, -2.5)
+	add("document element from the end", rule(""), "$.l[-1]", true, `{"l": [1, 3.5]}`, 3.5)
+	add("record", rule(""), "$", true, `[1.5, -1.5, 4]`, 1.5, -1.5, 4)
+	add("document exponent form", rule(""), "$.x", true, `{"x": 25e-1}`, 2.5)
+	// literals
+	add("literal", rule(""), "2.5", true, "", 2.5)
+	add("integer literal", rule(""), "7", true, "", 7)
+	add("parenthesised negative literal", rule(""), "(-2.5)", true, "", -2.5)
+	// ++ -- op= =
+	add("postfix ++", rule("  x = 1.5\n"), "x++", false, "", 1.5)
+	add("prefix ++", rule("  x = 1.5\n"), "(++x)", false, "", 2.5)
+	add("postfix --", rule("  x = 1.5\n"), "x--", false, "", 1.5)
+	add("prefix --", rule("  x = 1.5\n"), "(--x)", false, "", 0.5)
+	add("++ of an unset variable", rule(""), "(++fresh)", false, "", 1)
+	add("++ of an element", rule("  l = [1.5]\n"), "(++l[0])", false, "", 2.5)
+	add("+= result", rule("  x = 1\n"), "(x += 1.5)", false, "", 2.5)
+	add("/= result", rule("  x = 5\n"), "(x /= 2)", false, "", 2.5)
+	add("assignment result", rule(""), "(x = 2.5)", true, "", 2.5)
+	add("the variable after ++", rule("  x = 1.5\n  x++\n"), "x", true, "", 2.5)
+	add("for loop counter", "{\n  for (n = 0; n < 3; n++) {\n@U@  }\n}\n", "n", true, "", 0, 1, 2)
+	add("while loop counter", "{\n  n = 0.5\n  while (n < 3) {\n@U@    n += 1\n  }\n}\n", "n", true, "", 0.5, 1.5, 2.5)
+	// elements, members, popped values
+	add("array element", rule("  l = [1, 2.5]\n"), "l[1]", true, "", 2.5)
+	add("array element from the end", rule("  l = [1, -2.5]\n"), "l[-1]", true, "", -2.5)
+	add("object member", rule("  o = {k: 2.5}\n"), "o.k", true, "", 2.5)
+	add("nested member", rule("  o = {k: [{n: -3.5}]}\n"), "o.k[0].n", true, "", -3.5)
+	add("popped value", rule("  l = [1, 2.5]\n"), "l.pop()", false, "", 2.5)
+	add("popfirst value", rule("  l = [3.5, 1]\n"), "l.popfirst()", false, "", 3.5)
+	add("element of a sorted copy", rule("  l = [3.5, 1.5]\n"), "l.sort()[0]", true, "", 1.5)
+	add("element of an array literal", rule(""), "[1, 2.5][1]", true, "", 2.5)
+	add("auto-created element", rule("  fresh2[1] = 2.5\n"), "fresh2[1]", true, "", 2.5)
+	// match bindings
+	add("match binding", "{\n  match (2.5) { n => {\n@U@  } }\n\n}\n", "n", true, "", 2.5)
+	add("match binding of an element", "{\n  match ([1, -2.5]) { [a, b] => {\n@U@  } }\n\n}\n", "b", true, "", -2.5)
+	add("match binding of a for-in index", "{\n  for (v, i in [5, 6]) {\n    match (i) { n => {\n@U@    } }\n\n  }\n}\n", "n", true, "", 0, 1)
+	add("match result", rule(""), "(match (1) { 1 => 2.5 })", true, "", 2.5)
+	// parameters and function results
+	add("parameter", "function f(p) {\n@U@}\n{\n  f(2.5)\n  f(-3.5)\n}\n", "p", true, "", 2.5, -3.5)
+	add("parameter holding a for-in index", "function f(p) {\n@U@}\n{\n  for (v, i in [5, 6]) f(i)\n}\n", "p", true, "", 0, 1)
+	add("function result", "function g() { return 2.5 }\n"+rule(""), "g()", true, "", 2.5)
+	add("function returning a for-in index", "function last(l) { for (v, i in l) { n = v }\n  return i }\n"+rule(""), "last([1, 2, 3])", true, "", 2)
+	add("function returning its parameter", "function id(p) { return p }\n"+loop("for (v, i in [5, 6])"), "id(i)", true, "", 0, 1)
+	// rounding results
+	add("floor result", rule(""), "2.5.floor()", true, "", 2)
+	add("round result", rule(""), "(-2.5).round()", true, "", -3)
+	add("ceil of a for-in index", loop("for (v, i in [5, 6])"), "i.ceil()", true, "", 0, 1)
+	// comparisons / conditionals producing the number
+	add("|| is a bool, the operand is the number", rule("  x = 2.5\n"), "(x)", true, "", 2.5)
+	return out
+}
+
+// c16Uses: the ways a number is used; each evaluates E exactly once unless pureOnly
+var c16Uses = []struct {
+	name     string
+	pureOnly bool
+	funcs    string
+	text     string // statements; @E@ the number; prints "floor ceil round" on one line
+}{
+	{"direct", true, "", "print @E@.floor(), @E@.ceil(), @E@.round()\n"},
+	{"direct, once", false, "", "print @E@.@M@()\n"},
+	{"plain copy", false, "", "cj = @E@\nprint cj.floor(), cj.ceil(), cj.round()\n"},
+	{"copy of a copy", false, "", "cj = @E@\nck = cj\nprint ck.floor(), ck.ceil(), ck.round()\n"},
+	{"array element", false, "", "cl = [@E@]\nprint cl[0].floor(), cl[0].ceil(), cl[-1].round()\n"},
+	{"object member", false, "", "co = {k: @E@}\nprint co.k.floor(), co['k'].ceil(), co.k.round()\n"},
+	{"stored element", false, "", "cs = []\ncs[1] = @E@\nprint cs[1].floor(), cs[1].ceil(), cs[1].round()\n"},
+	{"stored member", false, "", "cm.deep.er = @E@\nprint cm.deep.er.floor(), cm.deep.er.ceil(), cm.deep.er.round()\n"},
+	{"pushed then popped", false, "", "cp = []\ncp.push(@E@)\nprint cp[0].floor(), cp[0].ceil(), cp.pop().round()\n"},
+	{"parameter", false, "function c16show(q) {\n  print q.floor(), q.ceil(), q.round()\n}\n", "c16show(@E@)\n"},
+	{"function result", false, "function c16id(q) { return q }\n", "cj = c16id(@E@)\nprint cj.floor(), c16id(cj).ceil(), cj.round()\n"},
+	{"match binding", false, "", "match (@E@) { cq => {\n  print cq.floor(), cq.ceil(), cq.round()\n} }\n\n"},
+	{"match binding of an element", false, "", "match ([@E@, 1]) { [cq, cr] => {\n  print cq.floor(), cq.ceil(), cq.round()\n} }\n\n"},
+	{"for-in element", false, "", "for (cw in [@E@]) {\n  print cw.floor(), cw.ceil(), cw.round()\n}\n"},
+	{"index form", true, "", "print @E@['floor'](), @E@[\"ceil\"](), (@E@).round()\n"},
+	{"parenthesised", true, "", "print (@E@).floor(), ((@E@)).ceil(), (@E@.round)()\n"},
+	{"bound method", false, "", "cj = @E@\nmatch (cj.floor) { cf => {\n  print cf(), cj.ceil(), cj.round()\n} }\n\n"},
+	{"compound copy", false, "", "cj = 0\ncj += @E@\nck = @E_PURE@\nprint cj.floor(), cj.ceil(), cj.round()\n"},
+}
+
+func c16SourceCase(s c16Src, u int, m string) (Case, bool) {
+	use := c16Uses[u]
+	if use.pureOnly && !s.pure {
+		return Case{}, false
+	}
+	text := use.text
+	if strings.Contains(text, "@E_PURE@") {
+		text = strings.ReplaceAll(text, "@E_PURE@", "cj")
+	}
+	text = strings.ReplaceAll(strings.ReplaceAll(text, "@E@", s.e), "@M@", m)
+	// indent every statement line
+	var ub strings.Builder
+	for _, ln := range strings.Split(strings.TrimSuffix(text, "\n"), "\n") {
+		if ln == "" {
+			ub.WriteString("\n")
+		} else {
+			ub.WriteString("      " + ln + "\n")
+		}
+	}
+	prog := use.funcs + strings.ReplaceAll(s.tmpl, "@U@", ub.String())
+	var want strings.Builder
+	for _, v := range s.vals {
+		switch {
+		case strings.Contains(use.text, "@M@"):
+			f := map[string]func(float64) float64{"floor": math.Floor, "ceil": math.Ceil, "round": math.Round}[m]
+			want.WriteString(c16F(f(v)))
+		default:
+			want.WriteString(c16F(math.Floor(v)) + " " + c16F(math.Ceil(v)) + " " + c16F(math.Round(v)))
+		}
+		want.WriteString("\n")
+	}
+	w := want.String()
+	return Case{Req: RunReq(prog, nil, []File{{Name: "in.json", Data: []byte(s.doc)}}, false), Fields: []string{"class", "out"},
+		Meta: metaProg(prog, "input", s.doc, "row", s.name, "col", use.name, "want", w),
+		Oracle: func(i Resp) string {
+			if i["class"] != "ok" || string(i.Bytes("out")) != w {
+				return fmt.Sprintf("floor/ceil/round of a number from %s, used as %s: got %s %q (%s), the math package says %q", s.name, use.name, i["class"], string(i.Bytes("out")), i["msg"], w)
+			}
+			return ""
+		}}, true
+}
+
+func init() {
+	register(Family{
+		Name: "number-sources", Prop: "C16",
+		Rule: "floor / ceil / round on numbers from every source the language has: for-in position variables (index over array literals, variables, document arrays, arrays of containers; byte offset over ASCII, multi-byte and document strings; inner and outer of nested loops, inside a function, in BEGIN, after the loop ended / after break), arithmetic on them, for-in elements and object values, $index (rule, pattern rule, END), length() of strings / arrays / objects, arithmetic results (/ + - * % unary, string operands), num() results, document numbers ($.x, $.l[1], $.l[-1], the record, exponent form), literals, ++ -- += /= = results (prefix, postfix, unset variable, element), loop counters, elements / members / popped values / sorted copies / auto-created elements, match bindings and match results, parameters, function results, rounding results -- each used in 18 ways: directly (three calls, one call per method), after a plain copy, a copy of a copy, as an array element, an object member, a stored element / member, pushed and popped, as a parameter, a function result, a match binding (whole and array pattern), a for-in element, in index form, parenthesised, through a bound method, after +=; oracle: math.Floor / Ceil / Round (halves away from zero) of the known value, one line per evaluation; also compared with the model; matrix source x use",
+		Gen: func(r *rand.Rand, tier string, emit func(Case)) {
+			for _, s := range c16NumberSources() {
+				for u := range c16Uses {
+					for _, m := range []string{"floor", "ceil", "round"} {
+						if !strings.Contains(c16Uses[u].text, "@M@") && m != "floor" {
+							continue
+						}
+						if c, ok := c16SourceCase(s, u, m); ok {
+							emit(c)
+						}
+					}
+				}
+			}
+		},
+	})
+}
